@@ -248,7 +248,12 @@ func (g *Gen) Malformed() *Request {
 	var body []byte
 	kind := ""
 	numField := []string{"inputHash", "preRoot", "postRoot"}[t.Pick(3)]
-	switch t.Draw(16) {
+	switch t.Draw(17) {
+	case 16:
+		// a long non-numeric string: the error body that echoes it spans several socket writes
+		doc[numField] = "0x" + strings.Repeat("zq", 1000+t.Draw(3000))
+		body = render(doc)
+		kind = "long-non-numeric-string"
 	case 0:
 		body = []byte("this is not json")
 		kind = "not-json"
@@ -469,4 +474,17 @@ func unhxs(ss []string) ([]*big.Int, error) {
 		out[i] = v
 	}
 	return out, nil
+}
+
+// Cheap returns a request that never reaches the prover (malformed, mis-shaped or non-POST): used for
+// high-volume bursts.
+func (g *Gen) Cheap() *Request {
+	switch g.T.Weighted(5, 2, 1) {
+	case 0:
+		return g.Malformed()
+	case 1:
+		return g.WrongShape()
+	default:
+		return g.NonPost()
+	}
 }
